@@ -78,6 +78,16 @@ func reducedDescs(thorough bool) []int {
 	return res
 }
 
+func everyNthDesc(n int) []int {
+	var res []int
+	for i := 0; i < len(descSpecs); i++ {
+		if i%n == 0 || i >= nWellFormedDescs {
+			res = append(res, i)
+		}
+	}
+	return res
+}
+
 func keyListBehs(thorough bool) []beh {
 	res := append([]beh{}, honest...)
 	for i := range keyLists {
@@ -199,7 +209,7 @@ func partBSweeps(r *core.Run) []sweep {
 	if thorough {
 		kOther = k3
 	}
-	js, goFl, full := []int{flSingle}, []int{flGo}, []int{flFull}
+	js, goFl := []int{flSingle}, []int{flGo}
 	jsFull, goFull := []int{flSingle, flFull}, []int{flGo, flFull}
 	_ = jsFull
 	gopdOps := opsFor("getOwnPropertyDescriptor")
@@ -213,11 +223,13 @@ func partBSweeps(r *core.Run) []sweep {
 		defBehs = boolBehsCore
 	}
 	sw = append(sw, keyedSweep("defineProperty", js, k3, defBehs, defOps[:1], seq(len(descSpecs))))
-	sw = append(sw, keyedSweep("defineProperty", goFl, kOther, defBehs, defOps[:1], seq(len(descSpecs))))
 	if thorough {
-		sw = append(sw, keyedSweep("defineProperty", full, k3, defBehs, defOps[:1], seq(len(descSpecs))))
+		sw = append(sw, keyedSweep("defineProperty", goFull, k3, defBehs, defOps[:1], seq(len(descSpecs))))
+	} else {
+		sw = append(sw, keyedSweep("defineProperty", goFl, kOther, defBehs, defOps[:1], everyNthDesc(3)))
 	}
-	sw = append(sw, keyedSweep("defineProperty", all, kOther, boolBehsCore, defOps, reducedDescs(thorough)))
+	sw = append(sw, keyedSweep("defineProperty", js, kOther, boolBehsCore, defOps[1:], reducedDescs(thorough)))
+	sw = append(sw, keyedSweep("defineProperty", goFull, kOther, boolBehsCore, defOps, reducedDescs(thorough)))
 	// defineProperty: every ToBoolean class / trap kind on a small descriptor set; and reached through [[Set]] / freeze / seal
 	smallDescs := []int{0, 1, 2, 10, 100}
 	sw = append(sw, keyedSweep("defineProperty", all, kOther, boolBehs, defOps, smallDescs))
@@ -229,7 +241,11 @@ func partBSweeps(r *core.Run) []sweep {
 	sw = append(sw, keyedSweep("get", all, k3, getBehs, opsFor("get"), none))
 	setVals := []int{v1, v2, vNaN, vZero, vNegZero}
 	sw = append(sw, keyedSweep("set", js, k3, boolBehs, opsFor("set"), setVals))
-	sw = append(sw, keyedSweep("set", goFull, kOther, boolBehs, opsFor("set"), setVals))
+	if thorough {
+		sw = append(sw, keyedSweep("set", goFull, k3, boolBehs, opsFor("set"), setVals))
+	} else {
+		sw = append(sw, keyedSweep("set", goFull, kOther, boolBehsCore, opsFor("set"), setVals))
+	}
 	sw = append(sw, keyedSweep("deleteProperty", all, k3, boolBehs, opsFor("deleteProperty"), none))
 
 	// ownKeys: three target keys each absent / configurable / non-configurable; every key list up to length 3
